@@ -19,7 +19,7 @@ import re
 import shutil
 import subprocess
 
-from .core import BIN, LEAN, goenv
+from .core import BIN, LEAN, goenv, sh
 from . import designs, protoparse, c10rt
 
 PROTO_SCALAR = {"Boolean": "bool", "Int": "sint32", "Int32": "sint32", "Int64": "sint64", "UInt": "uint32", "UInt32": "uint32", "UInt64": "uint64",
@@ -243,6 +243,31 @@ def tag_mutations(d):
     return out
 
 
+def handler_tie(c):
+    """T3 for goa's gRPC runtime around the generated code: the unary server handler and the client invoker over a real grpc transport
+    (rtgrpc) vs Model/GrpcHandler.lean (drv_grpc). The fields the model gives are what Props/C10.lean proves the property demands
+    (message + exactly the encoder's header and trailer metadata on success, nothing on failure, user code iff the request decoded),
+    so a line on which the implementation differs is a failing input."""
+    if not (c.go_build("rtgrpc") and c.lake_build("drv_grpc", what="tie")):
+        return
+    rc, so, se = sh([os.path.join(BIN, "rtgrpc"), "gen", "-seed", str(c.seed), "-tier", c.tier])
+    ops = c.corpus() + so.splitlines()
+    ops = [o for o in ops if o.startswith("unary ")]
+    impl, model, dis = c.correspondence("gRPC unary handler + invoker vs Model/GrpcHandler.lean", ops, [os.path.join(BIN, "rtgrpc"), "run"],
+                                        [os.path.join(LEAN, ".lake/build/bin/drv_grpc")])
+    for op, line in zip(ops, impl):
+        t = op.split()
+        c.hist("handler steps (decoder/endpoint/encoder)", "/".join(x[:3] for x in t[1:4]))
+        c.hist("handler metadata", "header %s, trailer %s" % ("set" if " H 0" not in op else "empty", "set" if " T 0" not in op else "empty"))
+        if "ok ok ok" in op:
+            c.count(op)
+    for i, op, a, b in dis:
+        fa, fb = dict(x.split("=", 1) for x in a.split() if "=" in x), dict(x.split("=", 1) for x in b.split() if "=" in x)
+        diff = [k for k in ("code", "ran", "result", "hdr", "trlr") if fa.get(k) != fb.get(k)] or ["output"]
+        c.fail("c10/runtime/unary-handler:" + "+".join(diff), "the unary handler / invoker gives %s where the property (Props/C10.lean, handler section) demands %s" % (a, b),
+               input=op, expected=b, actual=a)
+
+
 def run(c):
     n = 40 if c.tier == "quick" else 400
     c.cov["rule"] = ("gRPC designs 0..%d (primitives of every kind, arrays, maps, nested and recursive user types, OneOf, metadata, response headers/trailers, "
@@ -252,16 +277,21 @@ def run(c):
     c.cov["trusted_base"] += [
         "protoc is not installed: vlib/protoparse.py is the reading of proto3 (syntax subset goa emits; field numbers 1..2^29-1 outside 19000-19999, unique "
         "numbers and names per message, known types, scalar map keys)",
+        "Model/GrpcHandler.lean is hand-written from grpc/handler.go (unaryHandler.Handle) and grpc/client.go with the status function translated from "
+        "grpc/error.go (gotolean, T1); harness/cmd/rtgrpc supplies hand-written decoders/encoders (scripted per line) in place of the generated ones and "
+        "wrapperspb messages over bufconn; the stream handler is not modelled",
         "Model/Proto.lean is hand-written from expr/grpc_endpoint.go Validate / validateMessage / validateRPCTags (request side); response messages and nested "
         "user types are judged only by the parser",
     ]
     have = c.go_build("genrun")
     lean_ok = False
-    if c.lake_build("GoaVerif.Props.C10"):
+    # the status function of grpc/error.go, translated (T1): Model/GrpcHandler.lean builds on it
+    if c.go_build("gotolean") and c.gotolean("grpcerr", "TrGrpcerr") and c.lake_build("GoaVerif.Props.C10"):
         c.audit("C10")
         if c.tier == "thorough":
             c.leanchecker("C10")
         lean_ok = c.lake_build("drv_proto", what="tie")
+    handler_tie(c)
     if not have:
         return
     drv = os.path.join(LEAN, ".lake/build/bin/drv_proto")
